@@ -1,11 +1,42 @@
 (* what the E1 case shards evaluate *)
 From Coq Require Import List ZArith Bool.
-From LP Require Import Trace.ZMap Trace.Concrete Trace.Spec Trace.Main.
+From LP Require Import Trace.ZMap Trace.Concrete Trace.Abstract Trace.Spec Trace.Main Trace.TimeExact.
 Import ListNotations.
 Open Scope Z_scope.
 
+(* The right-hand sides of C01_hits_exact and C02_time_exact, evaluated directly (function-level
+   definitions of the theorems, not the executable Spec.v) and compared with the implementation's LAST
+   snapshot, label by label and line by line.  Only judged when the theorems' hypotheses hold. *)
+Definition thm_hits (codes : list code) (tick : Z) (ops : list op) (lbl l : Z) : Z :=
+  fold_right (fun c acc => if Z.eqb (c_lbl (nth_code codes c)) lbl
+                           then executed codes tick ops c l - in_flight codes tick ops c l - dropped codes tick ops c l + acc
+                           else acc) 0 (nodup Z.eq_dec (reg_codes ops)).
+Definition thm_time (codes : list code) (tick : Z) (ops : list op) (lbl l : Z) : Z :=
+  let g := g_run codes tick 0 ops in
+  fold_right (fun c acc => if Z.eqb (c_lbl (nth_code codes c)) lbl then g_time g c l + acc else acc) 0
+             (nodup Z.eq_dec (reg_codes ops)).
+
+Definition last_snapshot (impl : list snapshot) : snapshot := List.last impl [].
+
+(* true when the history ends with a snapshot (so that the last snapshot is the final state) *)
+Definition ends_with_snapshot (ops : list op) : bool :=
+  match rev ops with S :: _ => true | _ => false end.
+
+Definition theorem_rhs_ok (codes : list code) (tick : Z) (with_time : bool) (ops : list op) (impl : list snapshot) : bool :=
+  if negb (no_collision codes ops && ends_with_snapshot ops) then true else
+  let snap := last_snapshot impl in
+  let timed := with_time && nonreentrant_hist codes tick ops in
+  forallb (fun c =>
+     let lbl := c_lbl (nth_code codes c) in
+     forallb (fun l =>
+        let '(h, t) := match entry_of snap lbl l with Some e => e | None => (0, 0) end in
+        Z.eqb h (thm_hits codes tick ops lbl l) && (negb timed || Z.eqb t (thm_time codes tick ops lbl l)))
+        (label_lines codes lbl))
+     (nodup Z.eq_dec (reg_codes ops)).
+
 (* (model = implementation, spec hits = implementation, spec times = implementation,
-    implementation snapshots well-formed and monotone, no_collision holds for the history) *)
-Definition verdicts5 (codes : list code) (tick : Z) (with_time : bool) (ops : list op) (impl : list snapshot)
-  : bool * bool * bool * bool * bool :=
-  (verdicts4 codes tick with_time ops impl, no_collision codes ops).
+    implementation snapshots well-formed and monotone, no_collision holds for the history,
+    theorem right-hand sides = implementation's last snapshot) *)
+Definition verdicts6 (codes : list code) (tick : Z) (with_time : bool) (ops : list op) (impl : list snapshot)
+  : bool * bool * bool * bool * bool * bool :=
+  (verdicts4 codes tick with_time ops impl, no_collision codes ops, theorem_rhs_ok codes tick with_time ops impl).
